@@ -67,83 +67,156 @@ def run(ctx) -> None:
 
 
 # ---------------------------------------------------------------------------------------------
-def _single_return(f: FuncInfo) -> Optional[ast.AST]:
-    body = [s for s in f.body if not (isinstance(s, ast.Expr) and isinstance(s.value, ast.Constant))]
-    if len(body) == 1 and isinstance(body[0], ast.Return):
-        return body[0].value
+_BIN = {"add": "Add", "sub": "Sub", "mul": "Mult", "truediv": "Div", "floordiv": "FloorDiv", "mod": "Mod", "pow": "Pow",
+        "lshift": "LShift", "rshift": "RShift"}
+_UN = {"neg": "USub", "pos": "UAdd", "invert": "Invert"}
+_A, _B = ("param", "<self element>"), ("param", "<other>")
+
+
+def _apply_op(prog, it, home: FuncInfo, op, args):
+    """The TERM an operator term computes for the given argument terms: operator.X, a two-line package helper (evaluated
+    abstractly with the arguments bound), or a lambda / closure of the analysed function.  None: not understood."""
+    from ..symx import Interp
+    if op[0] == "attr" and op[1] == ("name", "operator"):
+        if len(args) == 2 and op[2] in _BIN:
+            return ("bin", _BIN[op[2]], args[0], args[1])
+        if len(args) == 1 and op[2] in _UN:
+            return ("un", _UN[op[2]], args[0])
+        if len(args) == 1 and op[2] == "abs":
+            return ("call", ("name", "abs"), (args[0],), ())
+        return None
+    if op[0] == "name":
+        if op[1] == "abs" and len(args) == 1:
+            return ("call", ("name", "abs"), (args[0],), ())
+        tgt = prog.functions.get(f"{home.module}.{op[1]}")
+        if tgt is None or len(tgt.params) != len(args) or isinstance(tgt.node, ast.Lambda):
+            return None
+        sub = Interp(prog, tgt, args=dict(zip(tgt.params, args)))
+        rets = sub.returns
+        if len(rets) == 1 and not rets[0][0] and not sub.falls_through:
+            return rets[0][1]
+        return None
+    if op[0] == "lam":
+        return it.call_value(op, tuple(args))
     return None
 
 
+def _returns_of(prog, f: FuncInfo):
+    from ..sites2 import interp_of
+    it = interp_of(prog, f)
+    return it, [e for e in it.events if e.kind == "return" and e.depth == 0]
+
+
 def _dispatch(ctx) -> None:
+    """Each operator dunder hands the kernel an operator that COMPUTES <self element> OP <other> (forward) or <other> OP <self
+    element> (reflected): the operator argument is applied abstractly to two symbols and the resulting term compared."""
+    from ..symx import show
     prog = ctx.prog
+
+    def check(f, kernel, sym_name, want, what, nargs=2):
+        it, rets = _returns_of(prog, f)
+        SELF = ("param", f.params[0])
+        problems = []
+        if not rets or it.falls_through:
+            problems.append("does not return the kernel's result on every path")
+        for e in rets:
+            t = e.term
+            if not (t[0] == "call" and t[1] == ("attr", SELF, kernel)):
+                problems.append(f"returns `{show(t, it)[:70]}`, not self.{kernel}(...)")
+                continue
+            a = list(t[2])
+            if nargs == 2:
+                if not (len(a) >= 2 and a[0] == ("param", f.params[1])):
+                    problems.append(f"the operand handed to the kernel is `{show(a[0], it)[:30] if a else '?'}`, not {f.params[1]}")
+                    continue
+                got = _apply_op(prog, it, f, a[1], (_A, _B))
+                optxt = show(a[1], it)[:40]
+            else:
+                if not a:
+                    problems.append("no operator handed to the kernel")
+                    continue
+                got = _apply_op(prog, it, f, a[0], (_A,))
+                optxt = show(a[0], it)[:40]
+            if got is None:
+                problems.append(f"the operator argument `{optxt}` is not operator.X, a package helper or a lambda")
+            elif got != want:
+                problems.append(f"the operator argument `{optxt}` computes `{show(got)[:50]}`, expected `{show(want)[:50]}`")
+        ctx.ob("a.dispatch", f, "dispatch", not problems, what, f.node,
+               message=f"{f.qualname}: " + "; ".join(problems[:2]))
+
     for name, (opn, sym) in ARITH.items():
         f = prog.method("Vector", name)
         if f is None:
             raise AnalysisError(f"Vector.{name} vanished")
-        r = _single_return(f)
-        ok = isinstance(r, ast.Call) and attr_chain(r.func) == ["self", "_elementwise_operation"] and len(r.args) >= 2 \
-            and short(r.args[0]) == f.params[1] and short(r.args[1]) == opn
-        ctx.ob("a.dispatch", f, "dispatch", ok, f"{name} -> _elementwise_operation(other, {opn})", f.node,
-               message=f"Vector.{name} is `{short(r, 80) if r is not None else 'not a single return'}`, expected "
-                       f"self._elementwise_operation(other, {opn}, ...)")
+        base = name.strip("_").replace("bit_", "")
+        refl = name.startswith("__r") and base[1:] in _BIN
+        opk = _BIN[base[1:] if refl else base]
+        want = ("bin", opk, _B, _A) if refl else ("bin", opk, _A, _B)
+        check(f, "_elementwise_operation", sym, want, f"{name}: the kernel operator computes {show(want)}")
     for hname, opcls in REVERSE.items():
         q = f"vector.{hname}"
         if not prog.has_func(q):
-            if hname == "_reverse_add":
-                continue
-            raise AnalysisError(f"{q} vanished")
+            continue                            # a helper folded into its dunder is covered by the dunder's own obligation
         f = prog.func(q)
-        r = _single_return(f)
-        ok = isinstance(r, ast.BinOp) and isinstance(r.op, opcls) and len(f.params) == 2 \
-            and short(r.left) == f.params[1] and short(r.right) == f.params[0]
-        ctx.ob("a.dispatch", f, "reverse-helper", ok, f"{hname}({', '.join(f.params)}) = {short(r) if r is not None else '?'}", f.node,
-               message=f"{hname}({', '.join(f.params)}) returns `{short(r) if r is not None else '?'}`; the kernel calls it as "
-                       f"{hname}(<self element>, <other>), so it must return {f.params[1]} {opcls.__name__} {f.params[0]} "
+        got = _apply_op(prog, None, f, ("name", hname), (_A, _B)) if len(f.params) == 2 else None
+        want = ("bin", opcls.__name__, _B, _A)
+        ctx.ob("a.dispatch", f, "reverse-helper", got == want, f"{hname}(<self element>, <other>) = {show(want)}", f.node,
+               message=f"{hname}({', '.join(f.params)}) returns `{show(got) if got is not None else '?'}`; the kernel calls it as "
+                       f"{hname}(<self element>, <other>), so it must compute <other> {opcls.__name__} <self element> "
                        f"(other on the LEFT, as written)")
     for name, fwd in COMMUTATIVE_FORWARD.items():
         f = prog.method("Vector", name)
-        r = _single_return(f)
-        ok = isinstance(r, ast.Call) and attr_chain(r.func) == ["self", fwd] and len(r.args) == 1 and short(r.args[0]) == f.params[1]
+        it, rets = _returns_of(prog, f)
+        SELF = ("param", f.params[0])
+        opk = _BIN[fwd.strip("_")]
+        ok = bool(rets) and not it.falls_through
+        for e in rets:
+            t = e.term
+            if t[0] == "call" and t[1] == ("attr", SELF, fwd) and t[2] == (("param", f.params[1]),):
+                continue                        # the forward form of the commutative operator
+            if t[0] == "call" and t[1] == ("attr", SELF, "_elementwise_operation") and len(t[2]) >= 2 and t[2][0] == ("param", f.params[1]) \
+                    and _apply_op(prog, it, f, t[2][1], (_A, _B)) in (("bin", opk, _A, _B), ("bin", opk, _B, _A)):
+                continue
+            ok = False
         ctx.ob("a.dispatch", f, "commutative-forward", ok, f"{name} -> {fwd}(other)", f.node,
-               message=f"Vector.{name} is `{short(r) if r is not None else '?'}`; a reflected form may reuse the forward form only for "
-                       f"the commutative operator (expected self.{fwd}(other))")
-    # no other reflected dunder forwards to its forward form
-    for name in ("__rsub__", "__rtruediv__", "__rfloordiv__", "__rmod__", "__rpow__"):
-        f = prog.method("Vector", name)
-        r = _single_return(f)
-        bad = isinstance(r, ast.Call) and isinstance(r.func, ast.Attribute) and r.func.attr == name.replace("__r", "__")
-        if bad:
-            ctx.ob("a.dispatch", f, "non-commutative-forward", False, "", f.node,
-                   message=f"Vector.{name} forwards to the forward operator: operand order is lost for a non-commutative operator")
+               message=f"Vector.{name} returns `{'; '.join(show(e.term, it)[:50] for e in rets)}`; a reflected form may reuse the forward "
+                       f"form only for the commutative operator (expected self.{fwd}(other))")
     for name, opn in UNARY.items():
         f = prog.method("Vector", name)
-        r = _single_return(f)
-        ok = isinstance(r, ast.Call) and attr_chain(r.func) == ["self", "_unary_operation"] and r.args and short(r.args[0]) == opn
-        ctx.ob("a.dispatch", f, "dispatch", ok, f"{name} -> _unary_operation({opn})", f.node,
-               message=f"Vector.{name} is `{short(r) if r is not None else '?'}`, expected self._unary_operation({opn}, ...)")
+        base = name.strip("_")
+        want = ("call", ("name", "abs"), (_A,), ()) if base == "abs" else ("un", _UN[base], _A)
+        check(f, "_unary_operation", None, want, f"{name}: the kernel operator computes {show(want)}", nargs=1)
     for name, opn in TABLE_ARITH.items():
         f = prog.cls("Table").methods.get(name)
         if f is None:
             raise AnalysisError(f"Table.{name} vanished")
-        r = _single_return(f)
-        ok = isinstance(r, ast.Call) and attr_chain(r.func) == ["self", "_table_elementwise_operation"] and len(r.args) >= 2 \
-            and short(r.args[0]) == f.params[1] and short(r.args[1]) == opn
-        ctx.ob("a.dispatch", f, "dispatch", ok, f"Table.{name} -> _table_elementwise_operation(other, {opn})", f.node,
-               message=f"Table.{name} is `{short(r, 80) if r is not None else '?'}`, expected self._table_elementwise_operation(other, {opn}, ...)")
+        want = ("bin", _BIN[name.strip("_")], _A, _B)
+        check(f, "_table_elementwise_operation", None, want, f"Table.{name}: the kernel operator computes {show(want)}")
     # _unary_operation kernel
-    f = prog.func("vector.Vector._unary_operation")
-    res = Resolver(prog, f)
-    rets = [s for s in walk_stmts(f.body) if isinstance(s, ast.Return)]
-    ok = False
-    if len(rets) == 1 and isinstance(rets[0].value, ast.Call) and short(rets[0].value.func) == "Vector" and rets[0].value.args:
-        d = rets[0].value.args[0]
-        ds = res.resolve(d) if isinstance(d, ast.Name) else [d]
-        c = comp_of(ds[0]) if ds and not isinstance(ds[0], str) else None
-        if c is not None and len(c.generators) == 1 and not c.generators[0].ifs and short(c.generators[0].iter) in ("self", "self._underlying"):
-            x = c.generators[0].target.id
-            ok = short(c.elt) in (f"None if {x} is None else {f.params[1]}({x})",)
-    ctx.ob("c.pairing", f, "unary-kernel", ok, "unary kernel: None if x is None else op_func(x) over all elements", f.node,
-           message="the unary kernel does not apply op_func to every element of self (None kept)")
+    f, sites = _kernel_sites(prog, "vector.Vector._unary_operation")
+    from ..symx import NONE as SNONE
+    SELF = ("param", f.params[0])
+    opf = ("param", f.params[1])
+    problems = []
+    n = 0
+    for s_, d, cp in sites:
+        n += 1
+        if cp is None or len(cp[0]) != 1:
+            problems.append(f"result data `{s_.sh(d, 50)}` is not one value per element")
+            continue
+        (L,), extra, v, ev = cp
+        lp = s_.it.loops[L]
+        x = ("elem", lp.iter, L)
+        if lp.iter not in (SELF, ("attr", SELF, "_underlying")):
+            problems.append(f"iterates `{show(lp.iter, s_.it)[:40]}`, not self")
+        if extra:
+            problems.append("elements are filtered")
+        if _none_kept(v, (x,)) != ("call", opf, (x,), ()):
+            problems.append(f"element is `{show(v, s_.it)[:70]}`, expected `None if x is None else {f.params[1]}(x)`")
+    if not n:
+        problems.append("no result vector is built")
+    ctx.ob("c.pairing", f, "unary-kernel", not problems, "unary kernel: None if x is None else op_func(x) over all elements", f.node,
+           message="the unary kernel does not apply op_func to every element of self (None kept): " + "; ".join(problems[:2]))
 
 
 # ---------------------------------------------------------------------------------------------
@@ -348,14 +421,16 @@ def _pairing(ctx) -> None:
                 x = y = None
             else:
                 x, y = ("elem", doms[0], L), ("elem", doms[1], L)
-                want = ("ifexp", ("bool", "or", (("cmp", "Is", x, SNONE), ("cmp", "Is", y, SNONE))), SNONE, ("call", opf, (x, y), ()))
+                want = ("call", opf, (x, y), ())
+                wxs = (x, y)
                 wtxt = "None if x is None or y is None else op_func(x, y)"
         elif lp.iter in (SELF, ("attr", SELF, "_underlying")):
             x = ("elem", lp.iter, L)
             want = None
             wtxt = f"None if x is None else op_func(x, {f.params[1]})"
-            if not (v[0] == "ifexp" and v[1] == ("cmp", "Is", x, SNONE) and v[2] == SNONE and v[3][0] == "call" and v[3][1] == opf
-                    and len(v[3][2]) == 2 and v[3][2][0] == x and v[3][2][1] in others):
+            pl = _none_kept(v, (x,))
+            if not (pl is not None and pl[0] == "call" and pl[1] == opf and len(pl[2]) == 2 and pl[2][0] == x and pl[2][1] in others
+                    and not pl[3]):
                 problems.append(f"element is `{show(v, it)[:80]}`, expected `{wtxt}`")
         else:
             if not any(t == opf for t in __import__("serifscan.symx", fromlist=["subterms"]).subterms(v)):
@@ -365,7 +440,7 @@ def _pairing(ctx) -> None:
             wtxt = "?"
         if extra:
             problems.append("elements are filtered: the result would be shorter than the operands")
-        if want is not None and v != want:
+        if want is not None and _none_kept(v, wxs) != want:
             problems.append(f"element is `{show(v, it)[:80]}`, expected `{wtxt}`")
         seen_comps[key] = True
         ctx.ob("c.pairing", f, f"kernel:{len(seen_comps)}", not problems, wtxt, ev.node, message="; ".join(problems))
@@ -410,19 +485,20 @@ def _pairing(ctx) -> None:
                 want = None
             else:
                 x, y = ("elem", doms[0], L), ("elem", doms[1], L)
-                want = ("ifexp", ("bool", "or", (("cmp", "Is", x, SNONE), ("cmp", "Is", y, SNONE))), SNONE, ("bin", "Add", x, y))
+                want = ("bin", "Add", x, y)
+                wxs = (x, y)
         else:
             if lp.iter not in (SELF, ("attr", SELF, "_underlying")):
                 problems.append(f"scalar branch iterates `{show(lp.iter, it)[:40]}`")
             x = ("elem", lp.iter, L)
             want = None
-            if not (v[0] == "ifexp" and v[1] == ("cmp", "Is", x, SNONE) and v[2] == SNONE and v[3][0] == "bin" and v[3][1] == "Add"
-                    and v[3][2] in others and v[3][3] == x):
+            pl = _none_kept(v, (x,))
+            if not (pl is not None and pl[0] == "bin" and pl[1] == "Add" and pl[2] in others and pl[3] == x):
                 problems.append(f"the element operation is `{show(v, it)[:70]}`, expected `None if x is None else {f.params[1]} + x` "
                                 f"(other operand on the LEFT)")
         if extra:
             problems.append("elements are filtered")
-        if want is not None and v != want:
+        if want is not None and _none_kept(v, wxs) != want:
             problems.append(f"the element operation is `{show(v, it)[:70]}`, expected `None if either is None else <other element> + <self "
                             f"element>` (other operand on the LEFT)")
         ctx.ob("c.pairing", f, f"radd:{k}", not problems, "<other element> + <self element>, None kept", ev.node, message="; ".join(problems))
@@ -431,32 +507,109 @@ def _pairing(ctx) -> None:
 
 
 def _table(ctx) -> None:
+    """Every Table built by the table kernel holds op_func(col, other) for every column of self, or op_func(left, right) for the
+    zipped columns of both tables where the widths were compared first - on the symx sites of the function."""
+    from ..sites2 import all_sites2, comp_parts, leaves
+    from ..symx import flatten_conds, show
     prog = ctx.prog
     f = prog.func("table.Table._table_elementwise_operation")
-    other, opf = f.params[1], f.params[2]
-    problems = []
-    scal = [s for s in walk_stmts(f.body) if isinstance(s, ast.Assign) and isinstance(s.value, ast.Call) and short(s.value.func) == "tuple"]
-    if not (scal and cshort(scal[0].value.args[0]) == f"({opf}(_0, {other}) for _0 in self.cols())"):
-        problems.append(f"scalar case is `{short(scal[0].value, 70) if scal else '?'}`, expected {opf}(col, {other}) for col in self.cols()")
-    ctx.ob("d.table-arithmetic", f, "scalar", not problems, "table ⊙ scalar maps the vector operation over all columns", f.node,
-           message="; ".join(problems))
-    problems = []
-    loops = [s for s in walk_stmts(f.body) if isinstance(s, ast.For) and "zip(self.cols(), " + other + ".cols())" in short(s.iter)]
-    if len(loops) != 1:
-        problems.append("table ⊙ table does not pair self.cols() with other.cols()")
-    else:
-        lp = loops[0]
-        names = [n.id for n in ast.walk(lp.target) if isinstance(n, ast.Name)]
-        calls = [n for n in walk_no_nested(lp) if isinstance(n, ast.Call) and short(n.func) == opf]
-        if not (calls and len(names) >= 3 and [short(a) for a in calls[0].args] == names[-2:]):
-            problems.append(f"the per-column operation is `{short(calls[0]) if calls else '?'}`, expected {opf}(left_col, right_col)")
-        if not _len_guarded(prog, f, [n for n in ast.walk(lp.iter) if isinstance(n, ast.Call) and short(n.func) == "zip"][0]):
-            problems.append("no width check `len(self.cols()) != len(other.cols())` precedes the pairing")
-    ctx.ob("d.table-arithmetic", f, "table", not problems, "table ⊙ table pairs columns after a width check", f.node, message="; ".join(problems))
+    SELF = ("param", f.params[0])
+    OTHER, opf = ("param", f.params[1]), ("param", f.params[2])
+    cols_s = ("call", ("attr", SELF, "cols"), (), ())
+    cols_o = ("call", ("attr", OTHER, "cols"), (), ())
+    scalar_p, table_p = [], []
+    n_scalar = n_table = 0
+    for st in all_sites2(prog):
+        if st.top is not f or st.kind != "Table":
+            continue
+        it = st.it
+        for d in leaves(st.data):
+            cp = comp_parts(it, d)
+            if cp is None or len(cp[0]) != 1:
+                scalar_p.append(f"result `{st.sh(d, 50)}` is not one column per column of self")
+                n_scalar += 1
+                continue
+            (L,), extra, v, ev = cp
+            lp = it.loops[L]
+            dom = lp.domain
+            paired = dom is not None and dom[0] == "tuple"
+            if paired:
+                n_table += 1
+                doms = tuple(dom[1])
+                # enumerate(zip(a, b)) and zip(a, b) both give the pair domain
+                if doms[-2:] != (cols_s, cols_o):
+                    table_p.append(f"table ⊙ table pairs `{show(lp.iter, it)[:50]}`, expected zip(self.cols(), {f.params[1]}.cols())")
+                    continue
+                x, y = ("elem", cols_s, L), ("elem", cols_o, L)
+                if v != ("call", opf, (x, y), ()):
+                    table_p.append(f"the per-column operation is `{show(v, it)[:60]}`, expected {f.params[2]}(left_col, right_col)")
+                if extra:
+                    table_p.append("columns are filtered")
+                fc = flatten_conds(ev.conds)
+                ln = lambda c: ("call", ("name", "len"), (c,), ())
+                if not any(pol and t[0] == "cmp" and t[1] == "Eq" and {t[2], t[3]} == {ln(cols_s), ln(cols_o)} for t, pol in fc):
+                    table_p.append("no width check `len(self.cols()) != len(other.cols())` precedes the pairing")
+            else:
+                n_scalar += 1
+                if lp.iter != cols_s:
+                    scalar_p.append(f"scalar case iterates `{show(lp.iter, it)[:40]}`, not self.cols()")
+                    continue
+                x = ("elem", cols_s, L)
+                if v != ("call", opf, (x, OTHER), ()):
+                    scalar_p.append(f"scalar case computes `{show(v, it)[:60]}`, expected {f.params[2]}(col, {f.params[1]})")
+                if extra:
+                    scalar_p.append("columns are filtered")
+    if not n_scalar:
+        scalar_p.append("no table ⊙ scalar result found")
+    if not n_table:
+        table_p.append("table ⊙ table does not pair self.cols() with other.cols()")
+    ctx.ob("d.table-arithmetic", f, "scalar", not scalar_p, "table ⊙ scalar maps the vector operation over all columns", f.node,
+           message="; ".join(scalar_p[:2]))
+    ctx.ob("d.table-arithmetic", f, "table", not table_p, "table ⊙ table pairs columns after a width check", f.node,
+           message="; ".join(table_p[:2]))
 
 
 # ---------------------------------------------------------------------------------------------
+def _none_kept(v, xs):
+    """payload term if `v` is None exactly when one of the element terms xs is None (any spelling of the test), else None."""
+    import itertools
+    from ..symx import NONE as SNONE
+    from ..symx import reduce_ifexp, simplify
+    payload = None
+    for vals in itertools.product((False, True), repeat=len(xs)):
+        atoms = {("cmp", "Is", x, SNONE): b for x, b in zip(xs, vals)}
+        r = reduce_ifexp(simplify(v, atoms), atoms)
+        if any(vals):
+            if r != SNONE:
+                return None
+        else:
+            payload = r
+    return payload
+
+
+def _elementwise_over_self(prog, f: FuncInfo):
+    """[(interp, loop, value term, extra, problems)] for every Vector result of f: one value per element of self."""
+    from ..symx import show
+    f_, sites = _kernel_sites(prog, f.qualname)
+    SELF = ("param", f.params[0])
+    out = []
+    for s_, d, cp in sites:
+        problems = []
+        if cp is None or len(cp[0]) != 1:
+            out.append((s_, None, None, [f"result data `{s_.sh(d, 50)}` is not one value per element"]))
+            continue
+        (L,), extra, v, ev = cp
+        lp = s_.it.loops[L]
+        if extra:
+            problems.append("elements are filtered")
+        out.append((s_, lp, v, problems))
+    return out
+
+
 def _wrappers(ctx) -> None:
+    from ..sites2 import interp_of
+    from ..symx import NONE as SNONE
+    from ..symx import flatten_conds, show, subterms
     prog = ctx.prog
     helpers = {"before": ("partition", 0), "after": ("partition", 2), "before_last": ("rpartition", 0), "after_last": ("rpartition", 2)}
     for cname, pytype in (("_String", str), ("_Date", _dt.date)):
@@ -464,86 +617,144 @@ def _wrappers(ctx) -> None:
         for name, f in sorted(c.methods.items()):
             if name.startswith("_") or name in ("eomonth",):
                 continue
-            r = _single_return(f)
             problems = []
             if not hasattr(pytype, name) and name not in helpers:
                 problems.append(f"{pytype.__name__} has no method {name}")
-            if not (isinstance(r, ast.Call) and short(r.func) == "Vector" and len(r.args) == 1 and not r.keywords):
-                problems.append(f"body is `{short(r, 70) if r is not None else 'not a single return'}`")
-            else:
-                cm = comp_of(r.args[0])
-                if cm is None or len(cm.generators) != 1 or cm.generators[0].ifs or short(cm.generators[0].iter) != "self._underlying":
-                    problems.append("not an unfiltered comprehension over self._underlying")
+            SELF = ("param", f.params[0])
+            it = interp_of(prog, f)
+            rets = [e for e in it.events if e.kind == "return" and e.depth == 0]
+            res = _elementwise_over_self(prog, f)
+            if not res or len(rets) != len(res) or it.falls_through:
+                problems.append("does not return one element-wise Vector")
+            for s_, lp, v, pr in res:
+                problems += pr
+                if lp is None:
+                    continue
+                if s_.name_given or s_.dtype is not None:
+                    pass
+                if lp.iter not in (SELF, ("attr", SELF, "_underlying")):
+                    problems.append(f"iterates `{show(lp.iter, s_.it)[:40]}`, not the elements of self")
+                    continue
+                x = ("elem", lp.iter, lp.id)
+                call = _none_kept(v, (x,))
+                if call is None:
+                    problems.append(f"element `{show(v, s_.it)[:60]}` does not keep None as None")
+                    continue
+                if name in helpers:
+                    m, idx = helpers[name]
+                    want = ("sub", ("call", ("attr", x, m), (("param", f.params[1]),), ()), ("const", "int", idx))
+                    if call != want:
+                        problems.append(f"element is `{show(call, s_.it)[:60]}`, expected `s.{m}({f.params[1]})[{idx}]`")
                 else:
-                    s = cm.generators[0].target.id
-                    e = cm.elt
-                    if not (isinstance(e, ast.IfExp) and short(e.test) == f"{s} is not None" and short(e.orelse) == "None"):
-                        problems.append(f"element `{short(e, 60)}` does not keep None as None")
-                    else:
-                        call = e.body
-                        if name in helpers:
-                            m, idx = helpers[name]
-                            want = f"{s}.{m}({f.params[1]})[{idx}]"
-                            if short(call) != want:
-                                problems.append(f"element is `{short(call)}`, expected `{want}`")
-                        else:
-                            has_var = f.node.args.vararg is not None and f.node.args.kwarg is not None
-                            want = f"{s}.{name}(*{f.node.args.vararg.arg}, **{f.node.args.kwarg.arg})" if has_var else f"{s}.{name}()"
-                            if short(call) != want:
-                                problems.append(f"element is `{short(call)}`, expected `{want}` (the method of the wrapper's own name, "
-                                                f"with the caller's arguments)")
+                    va, kwa = f.node.args.vararg, f.node.args.kwarg
+                    ok = call[0] == "call" and call[1] == ("attr", x, name)
+                    if ok and va is not None and kwa is not None:
+                        ok = call[2] == (("star", ("param", va.arg)),) and tuple(call[3]) == (("**", ("param", kwa.arg)),)
+                    elif ok:
+                        ok = call[2] == () and tuple(call[3]) == ()
+                    if not ok:
+                        problems.append(f"element is `{show(call, s_.it)[:60]}`, expected `s.{name}(<the caller's arguments>)` (the method "
+                                        f"of the wrapper's own name)")
             ctx.ob("e.wrappers", f, "wrapper", not problems, f"{cname}.{name}: element-wise {pytype.__name__}.{name}, None kept", f.node,
-                   message=f"{cname}.{name}: " + "; ".join(problems))
-    # MethodProxy.__call__
+                   message=f"{cname}.{name}: " + "; ".join(problems[:2]))
+    # MethodProxy: __init__ stores vector and method name; __call__ applies getattr(elem, name)(*args, **kwargs) per element
+    fi = prog.func("vector.MethodProxy.__init__")
+    iti = interp_of(prog, fi)
+    PS = ("param", fi.params[0])
+    stores = {e.term[2]: e.value for e in iti.events if e.kind == "store" and e.term[0] == "attr" and e.term[1] == PS and not e.conds}
+    vec_attr = [a for a, v in stores.items() if v == ("param", fi.params[1])]
+    nm_attr = [a for a, v in stores.items() if v == ("param", fi.params[2])]
+    ctx.ob("e.wrappers", fi, "method-proxy-init", bool(vec_attr and nm_attr), "proxy stores the vector and the method NAME", fi.node,
+           message="MethodProxy no longer stores the vector and the method name")
     f = prog.func("vector.MethodProxy.__call__")
     problems = []
-    loops = [s for s in walk_stmts(f.body) if isinstance(s, ast.For)]
-    va, kw = f.node.args.vararg, f.node.args.kwarg
-    if len(loops) != 1 or short(loops[0].iter) != "self._vector._underlying" or va is None or kw is None:
+    va, kwa = f.node.args.vararg, f.node.args.kwarg
+    SELF = ("param", f.params[0])
+    res = _elementwise_over_self(prog, f)
+    if not res or va is None or kwa is None or not vec_attr or not nm_attr:
         problems.append("does not iterate all elements of the proxied vector with *args, **kwargs")
     else:
-        lp = loops[0]
-        x = lp.target.id
-        d = Defs(f)
-        apps = [n for n in walk_no_nested(lp) if isinstance(n, ast.Call) and isinstance(n.func, ast.Attribute) and n.func.attr == "append"]
-        texts = sorted(short(a.args[0]) for a in apps)
-        mvars = [n for n, lst in d.assigns.items() if any(v is not None and short(v) == "self._method_name" for v, _, _ in lst)]
-        mv = mvars[0] if mvars else "self._method_name"
-        want_call = f"getattr({x}, {mv})(*{va.arg}, **{kw.arg})"
-        if texts != sorted(["None", want_call]):
-            problems.append(f"appends {texts}; expected None for a None element and `{want_call}` (the method looked up ON THE ELEMENT, "
-                            f"by the proxied name) otherwise")
-        none_if = [s for s in lp.body if isinstance(s, ast.If) and short(s.test) == f"{x} is None"]
-        if not none_if:
-            problems.append("no `elem is None` test")
+        vec = ("attr", SELF, vec_attr[0])
+        for s_, lp, v, pr in res:
+            problems += pr
+            if lp is None:
+                continue
+            if lp.iter not in (vec, ("attr", vec, "_underlying")):
+                problems.append(f"iterates `{show(lp.iter, s_.it)[:40]}`, not the proxied vector's elements")
+                continue
+            x = ("elem", lp.iter, lp.id)
+            want = ("call", ("call", ("name", "getattr"), (x, ("attr", SELF, nm_attr[0])), ()), (("star", ("param", va.arg)),),
+                    (("**", ("param", kwa.arg)),))
+            if _none_kept(v, (x,)) != want:
+                problems.append(f"element is `{show(v, s_.it)[:80]}`; expected None for a None element and "
+                                f"`getattr(elem, self.{nm_attr[0]})(*{va.arg}, **{kwa.arg})` (the method looked up ON THE ELEMENT, by the "
+                                f"proxied name) otherwise")
     ctx.ob("e.wrappers", f, "method-proxy", not problems, "MethodProxy applies getattr(elem, name)(*args, **kwargs), None kept", f.node,
-           message="MethodProxy.__call__: " + "; ".join(problems))
-    f = prog.func("vector.MethodProxy.__init__")
-    ok = any(short(s) == "self._method_name = method_name" for s in f.body) and any(short(s) == "self._vector = vector" for s in f.body)
-    ctx.ob("e.wrappers", f, "method-proxy-init", ok, "proxy stores the vector and the method NAME", f.node,
-           message="MethodProxy no longer stores the vector and the method name")
+           message="MethodProxy.__call__: " + "; ".join(problems[:2]))
     # Vector.__getattr__
     f = prog.func("vector.Vector.__getattr__")
-    nm = f.params[1]
-    rets = [s for s in walk_stmts(f.body) if isinstance(s, ast.Return)]
-    texts = [cshort(r.value) for r in rets]
-    want_proxy = f"MethodProxy(self, {nm})"
-    want_prop = f"Vector(tuple((getattr(_0, {nm}) if _0 is not None else None for _0 in self._underlying)))"
-    ok = want_proxy in texts and want_prop in texts and len(texts) == 2
-    ctx.ob("e.wrappers", f, "getattr", ok, "callable class attribute -> MethodProxy(self, name); property -> per-element getattr", f.node,
-           message=f"Vector.__getattr__ returns {texts}; expected `{want_proxy}` for methods and `{want_prop}` for properties")
+    SELF, NM = ("param", f.params[0]), ("param", f.params[1])
+    it = interp_of(prog, f)
+    rets = [e for e in it.events if e.kind == "return" and e.depth == 0]
+    problems = []
+    proxies = [e for e in rets if e.term[0] == "call" and e.term[1] == ("name", "MethodProxy")]
+    others_ = [e for e in rets if e not in proxies]
+    if not proxies or any(e.term[2] != (SELF, NM) or e.term[3] for e in proxies):
+        problems.append(f"methods do not give MethodProxy(self, {f.params[1]})")
+    for e in proxies:
+        if not any(pol and t[0] == "call" and t[1] == ("name", "callable") for t, pol in flatten_conds(e.conds)):
+            problems.append("a MethodProxy is returned without the class attribute being callable")
+    res = _elementwise_over_self(prog, f)
+    if len(res) != len(others_) or not res:
+        problems.append("a property does not give one element-wise Vector")
+    for s_, lp, v, pr in res:
+        problems += pr
+        if lp is None:
+            continue
+        x = ("elem", lp.iter, lp.id)
+        if lp.iter not in (SELF, ("attr", SELF, "_underlying")):
+            problems.append(f"iterates `{show(lp.iter, s_.it)[:40]}`, not self")
+        elif _none_kept(v, (x,)) != ("call", ("name", "getattr"), (x, NM), ()):
+            problems.append(f"property element is `{show(v, s_.it)[:70]}`, expected `getattr(x, {f.params[1]}) if x is not None else None`")
+    ctx.ob("e.wrappers", f, "getattr", not problems, "callable class attribute -> MethodProxy(self, name); property -> per-element getattr",
+           f.node, message="Vector.__getattr__: " + "; ".join(problems[:2]))
     # _Date.__add__
     f = prog.func("vector._Date.__add__")
-    rets = [s for s in walk_stmts(f.body) if isinstance(s, ast.Return)]
+    SELF, OTHER = ("param", f.params[0]), ("param", f.params[1])
+    it = interp_of(prog, f)
+    rets = [e for e in it.events if e.kind == "return" and e.depth == 0]
     problems = []
-    if not rets or short(rets[-1].value) != f"super().__add__({f.params[1]})":
-        problems.append(f"falls back to `{short(rets[-1].value) if rets else '?'}`, expected super().__add__(other)")
-    days = [cshort(r.value) for r in rets[:-1]]
-    for t in days:
-        if "date.fromordinal(_0.toordinal() + " not in t or "is not None" not in t:
-            problems.append(f"day arithmetic `{t[:70]}` is not date.fromordinal(s.toordinal() + n) with None kept")
+    sup = ("call", ("attr", ("call", ("name", "super"), (), ()), "__add__"), (OTHER,), ())
+    fallback = [e for e in rets if e.term == sup]
+    if not fallback or it.falls_through:
+        problems.append("no fallback to super().__add__(other)")
+    res = _elementwise_over_self(prog, f)
+    if len(res) + len(fallback) != len(rets):
+        problems.append("a result is neither day arithmetic over the elements nor the generic kernel")
+    for s_, lp, v, pr in res:
+        problems += pr
+        if lp is None:
+            continue
+        L = lp.id
+        und = ("attr", SELF, "_underlying")
+        if lp.domain is not None and lp.domain[0] == "tuple":
+            doms = tuple(lp.domain[1])
+            if len(doms) != 2 or doms[0] not in (SELF, und) or doms[1] not in (OTHER, ("attr", OTHER, "_underlying")):
+                problems.append(f"pairs `{show(lp.iter, s_.it)[:50]}`, expected zip(self, other)")
+                continue
+            x, y = ("elem", doms[0], L), ("elem", doms[1], L)
+            xs = (x, y)
+        elif lp.iter in (SELF, und):
+            x, y = ("elem", lp.iter, L), OTHER
+            xs = (x,)
+        else:
+            problems.append(f"iterates `{show(lp.iter, s_.it)[:40]}`, not self")
+            continue
+        day = ("call", ("attr", ("name", "date"), "fromordinal"), (("bin", "Add", ("call", ("attr", x, "toordinal"), (), ()), y),), ())
+        if _none_kept(v, xs) != day:
+            problems.append(f"day arithmetic `{show(v, s_.it)[:80]}` is not date.fromordinal(s.toordinal() + n) with None kept")
     ctx.ob("e.wrappers", f, "date-add", not problems, "dates + int adds days; anything else uses the generic kernel", f.node,
-           message="_Date.__add__: " + "; ".join(problems))
+           message="_Date.__add__: " + "; ".join(problems[:2]))
 
 
 def _resolve(ctx) -> None:
